@@ -3394,6 +3394,9 @@ Case_BaseLdurStur:
           uint32_t x = op_gp.as<Reg>().is_gp64();
           uint32_t type = diff(op_vec.as<Reg>().reg_type(), RegType::kVec16);
 
+          if (type > 2u)
+            goto InvalidInstruction;
+
           uint32_t scale_limit = 32u << x;
           if (scale > scale_limit)
             goto InvalidInstruction;
